@@ -2,12 +2,13 @@
 (* Exhaustive configurations of Resume: every interleaving of download, persistence, crash, file deletion *)
 (* and restart for a small geometry.  FO[p+1] = files of piece p.                                          *)
 EXTENDS Resume
-CONSTANTS NP, NF, FO, SYNC, DESIGN
+CONSTANTS NP, NF, FO, SYNC, DESIGN, WERR
 
 Geo2x2 == <<{0}, {0, 1}>>
 Geo3x2 == <<{0}, {0, 1}, {1}>>
 Geo4x3 == <<{0}, {0, 1}, {1, 2}, {2}>>
+Geo2x3 == <<{0, 1, 2}, {2}>>      \* a piece that spans three files (a middle section exists)
 
-MCInit == InitWith([np |-> NP, nf |-> NF, fo |-> [p \in 0 .. (NP - 1) |-> FO[p + 1]], sync |-> SYNC, design |-> DESIGN])
+MCInit == InitWith([np |-> NP, nf |-> NF, fo |-> [p \in 0 .. (NP - 1) |-> FO[p + 1]], sync |-> SYNC, design |-> DESIGN, werr |-> WERR])
 MCSpec == MCInit /\ [][Next]_vars
 =============================================================================
